@@ -93,6 +93,8 @@ Section Prims.
       match args with [VObj v; VInt n] => lift_k (reserve_exact cfg v n) vunit s k | _ => stuck f s end
     else if is ".shrink_to_fit" then
       match args with [VObj v] => lift_k (shrink_to_fit cfg v) vunit s k | _ => stuck f s end
+    else if is ".is_empty" then
+      match args with [VObj v] => lift_k (is_empty v) VBool s k | _ => stuck f s end
     else if is ".reserve" then
       match args with [VObj v; VInt n] => lift_k (reserve cfg ncap v n) vunit s k | _ => stuck f s end
     else if is ".truncate" then
@@ -240,6 +242,15 @@ Section Prims.
       | [p; q; VInt n] =>
           match val_eptr p, val_eptr q with
           | Some p', Some q' => lift_k (slot_copy cfg p' q' n) vunit s k
+          | _, _ => stuck f s
+          end
+      | _ => stuck f s
+      end
+    else if is "copy_nonoverlapping" then
+      match args with
+      | [p; q; VInt n] =>
+          match val_eptr p, val_eptr q with
+          | Some p', Some q' => lift_k (slot_copy_across cfg p' q' n) vunit s k
           | _, _ => stuck f s
           end
       | _ => stuck f s
